@@ -590,7 +590,9 @@ async fn run_c20(rig: &mut Rig, id: u64, sc: &C20Scenario, inst_len: u32) -> Sce
             history.push(format!("{}/{}", step.client.name(), step.obs.name()));
             if step.client.hostile() || step.obs != ObsB::Valid {
                 res.nontrivial = true;
-                rig.fault(&format!("client_{}", step.client.class()));
+                if step.client.hostile() {
+                    rig.fault(&format!("client_{}", step.client.class()));
+                }
                 if step.obs != ObsB::Valid {
                     rig.fault(&format!("obs_{}", step.obs.class()));
                 }
